@@ -40,6 +40,7 @@ type Engine struct {
 	typeByString map[string]types.Type
 	tables   map[string]*Term
 	writtenGlobals map[*ssa.Global]bool
+	escaped        map[*ssa.Global]bool
 	dumped   map[string][]int64
 	tableVals map[string][]int64
 	maxDepth int
@@ -413,8 +414,8 @@ func (e *Engine) literalTable(g *ssa.Global) *Term {
 	if e.writtenGlobals == nil {
 		e.writtenGlobals = map[*ssa.Global]bool{}
 		for fn := range ssautil.AllFunctions(e.prog) {
-			if fn.Name() == "init" && fn.Pkg == g.Pkg && fn.Synthetic != "" {
-				continue // the package initialiser performs the literal's stores
+			if fn.Name() == "init" && fn.Synthetic != "" {
+				continue // a package initialiser performs the stores of its own package's literals
 			}
 			for _, b := range fn.Blocks {
 				for _, ins := range b.Instrs {
@@ -467,6 +468,24 @@ func (e *Engine) literalTable(g *ssa.Global) *Term {
 					}
 					cl, ok := vs.Values[i].(*ast.CompositeLit)
 					if !ok {
+						// a scalar variable with a constant initialiser that is never assigned and whose address is never
+						// taken (e.g. s1.dblEpsilon): its value is that constant
+						elem := g.Type().Underlying().(*types.Pointer).Elem()
+						tv, ok := lp.TypesInfo.Types[vs.Values[i]]
+						if !ok || tv.Value == nil || e.globalEscapes(g) {
+							return nil
+						}
+						switch {
+						case isInteger(elem):
+							bi, _ := new(big.Int).SetString(constant.ToInt(tv.Value).ExactString(), 10)
+							return BVLitBig(bi, sortOf(elem).W)
+						case isFloat(elem):
+							f, _ := constant.Float64Val(tv.Value)
+							if _, is32 := elem.Underlying().(*types.Basic); is32 && elem.Underlying().(*types.Basic).Kind() == types.Float32 {
+								return nil
+							}
+							return fpLit(f)
+						}
 						return nil
 					}
 					return e.tableFromLit(g.Name(), cl, lp, g.Type().Underlying().(*types.Pointer).Elem())
@@ -770,4 +789,37 @@ func (e *Engine) verifySpecDef(ct *Contract, u *Unit) *Unit {
 		c.obligs = append(c.obligs, &Oblig{Name: c.unitName + "#canary", Kind: "canary", Func: c.unitName, Goal: Not(ret), NAssume: len(c.assumes)})
 	}
 	return u
+}
+
+// globalEscapes: the global is used other than by a direct load or a direct store (its address is passed on).
+func (e *Engine) globalEscapes(g *ssa.Global) bool {
+	if e.escaped == nil {
+		e.escaped = map[*ssa.Global]bool{}
+		for fn := range ssautil.AllFunctions(e.prog) {
+			for _, b := range fn.Blocks {
+				for _, ins := range b.Instrs {
+					for _, op := range ins.Operands(nil) {
+						gg, ok := (*op).(*ssa.Global)
+						if !ok {
+							continue
+						}
+						switch x := ins.(type) {
+						case *ssa.UnOp:
+							if x.Op == token.MUL {
+								continue
+							}
+						case *ssa.Store:
+							if x.Addr == gg && x.Val != ssa.Value(gg) {
+								continue
+							}
+						case *ssa.DebugRef:
+							continue
+						}
+						e.escaped[gg] = true
+					}
+				}
+			}
+		}
+	}
+	return e.escaped[g]
 }
